@@ -330,7 +330,7 @@ PROPS = {
         "trusted_base": COMMON_TB + ["Go race detector and scheduler; runtime.NumGoroutine / Stack"],
         "assumptions": ["partial: data races, panics, deadlocks and leaks are runtime facts that the stress exercises and the race detector "
                         "observes on the schedules that occur; the theorems cover the lifecycle protocol", LEVEL_NOTE],
-        "floors": {"scorch-disk/close": 2, "scorch-mem/call-search": 20, "upsidedown-boltdb/call-index": 20, "scorch-mem/cancel-ctx": 10},
+        "floors": {"scorch-disk/close": 2, "scorch-disk-paced/close": 2, "scorch-mem/call-search": 20, "upsidedown-boltdb/call-index": 20, "scorch-mem/cancel-ctx": 10},
         "thorough_shards": 4, "parallel": 2, "timeout_quick": 1500,
     },
     "C12": {
